@@ -58,7 +58,10 @@ Lemma concat_example_supported :
   /\ run_concat two_parts [AList [3; 0; -1]] = spec_concat two_parts [] [AList [3; 0; -1]]
   /\ run_concat two_parts [AMask [true; false; false; true; true]; AInt 0]
      = spec_concat two_parts [] [AMask [true; false; false; true; true]; AInt 0].
-Proof. repeat split; vm_compute; try reflexivity; discriminate. Qed.
+Proof.
+  split; [vm_compute; reflexivity|]. split; [vm_compute; discriminate|]. split; [vm_compute; reflexivity|].
+  vm_compute; reflexivity.
+Qed.
 
 (* parts with byte strings of different widths (the narrow one first, an empty part of another kind between them):
    every head kind answers in the dtype of the concatenation |S4 with the full strings; kinds that do not all
@@ -78,7 +81,11 @@ Lemma concat_dtype_example :
   /\ run_concat bytes_parts [AMask [false; true; false; false; true]] = spec_concat bytes_parts [] [AMask [false; true; false; false; true]]
   /\ run_concat [mk_craw [2] [] (arange [2] 0) 0; mk_craw [2] [] (arange [2] 1) 1] [] = Err
   /\ cast_val 104 102 (enc_val 104 7) <> enc_val 104 7.
-Proof. repeat split; vm_compute; try reflexivity; discriminate. Qed.
+Proof.
+  split; [vm_compute; reflexivity|]. split; [vm_compute; reflexivity|]. split; [vm_compute; reflexivity|].
+  split; [vm_compute; reflexivity|]. split; [vm_compute; reflexivity|]. split; [vm_compute; reflexivity|].
+  split; [vm_compute; reflexivity|]. vm_compute; discriminate.
+Qed.
 
 (* ================================================================== C05_concat *)
 
@@ -1083,6 +1090,35 @@ Section Core.
     cbn [combine mapM fst snd]. rewrite ER. cbn [bind]. rewrite ES. cbn [bind].
     destruct out0 as [d0 n0]. cbn [a_dtype a_nd] in HD, HN. subst d0 n0. exact HG.
   Qed.
+  (* shape / dtype / len of the full result through the transform chain *)
+  Lemma concat_core_shape ts out s d : Forall (fun x => 0 <= x) T ->
+    c_initial_dtype ps = Ok dt ->
+    c_getitem (mk_concat ps ts) [] = Ok out ->
+    c_shape (mk_concat ps ts) = Ok s -> c_dtype (mk_concat ps ts) = Ok d ->
+    nd_shape (a_nd out) = s /\ a_dtype out = d /\ hd 0 s = total.
+  Proof.
+    intros HTn Hdt HG HS HD.
+    pose proof (concat_core ts [] out Hdt HG) as CC.
+    assert (Htot : 0 <= total).
+    { unfold total. pose proof (lens_nonneg ps Hlen) as LN. fold lens in LN. clear -LN.
+      induction LN; cbn; [lia|]. fold (zsum l). lia. }
+    unfold oindex in CC. cbn [nd_shape nd_body] in CC.
+    rewrite resolve_all_nil in CC by (constructor; assumption). cbn [bind] in CC.
+    destruct (apply_transforms_shape_dtype _ _ _ CC) as [S1 D1]. cbn [a_nd a_dtype nd_shape] in S1, D1.
+    rewrite take_shape_full_sels in S1 by (constructor; assumption).
+    unfold c_shape in HS. cbn [c_parts c_ts] in HS.
+    assert (HI : c_initial_shape ps = Ok (total :: T)).
+    { unfold c_getitem in HG. cbn [c_parts] in HG. unfold c_initial_shape in *. destruct ps as [|p r] eqn:EP; [discriminate|].
+      destruct (forallb _ r); [|discriminate]. inversion HP as [|? f ? fs' H0 _]; subst.
+      destruct H0 as [_ [Ht _]]. rewrite Ht. reflexivity. }
+    rewrite HI in HS. cbn [bind] in HS. rewrite <- S1 in HS.
+    destruct (negb _ && is_prefix _ _) eqn:EC in HS; [|discriminate]. injection HS as <-.
+    unfold c_dtype in HD. cbn [c_parts c_ts] in HD. rewrite Hdt in HD. cbn [bind] in HD. injection HD as <-.
+    split; [reflexivity|]. split; [exact D1|].
+    apply andb_prop in EC. destruct EC as [EN EC]. cbn [List.length firstn] in EC, EN.
+    destruct (nd_shape (a_nd out)) as [|x l]; [discriminate EN|]. cbn [firstn is_prefix hd] in *.
+    apply andb_prop in EC. destruct EC as [EC _]. lia.
+  Qed.
 End Core.
 
 
@@ -1268,3 +1304,84 @@ Proof.
   rewrite <- HW. unfold cat. rewrite flat_map_concat_map, map_map. rewrite <- HC.
   rewrite ET. exact CC.
 Qed.
+
+Lemma take_shape_nonneg : forall sels, Forall (fun x => 0 <= x) (take_shape sels).
+Proof. induction sels as [|[ps d] r IH]; cbn [take_shape]; [constructor|]. destruct d; [exact IH|]. constructor; [apply zlen_nonneg|exact IH]. Qed.
+
+Lemma oindex_keep_shape_nonneg a ix f : oindex_keep a ix = Ok f -> Forall (fun x => 0 <= x) (nd_shape f).
+Proof.
+  unfold oindex_keep. destruct (keep_sels _ _); [|discriminate]. cbn [bind]. intro H; injection H as <-. apply take_shape_nonneg.
+Qed.
+
+Lemma used_of_incl {A} (nz : A -> bool) l x : In x (used_of nz l) -> In x l.
+Proof.
+  unfold used_of. destruct (filter nz l) eqn:E.
+  - destruct l; cbn; [tauto|]. intros [<-|[]]. now left.
+  - rewrite <- E. intro H. apply filter_In in H. tauto.
+Qed.
+
+(* C05_concat_shape_dtype: the shape / dtype properties of the concatenated indexer and its len() are those of c[:];
+   the length is the sum of the lengths of ALL parts (parts without rows contribute nothing) *)
+Lemma concat_shape_dtype raws ts c out fulls s d :
+  Forall raw_ok raws ->
+  mapM (fun r => oindex_keep (mk_nd (r_shape r) (r_ds r)) (r_keep r)) raws = Ok fulls ->
+  c_mk raws ts = Ok c -> c_getitem c [] = Ok out ->
+  c_shape c = Ok s -> c_dtype c = Ok d ->
+  nd_shape (a_nd out) = s /\ a_dtype out = d /\ hd 0 s = zsum (map (fun a => hd 0 (nd_shape a)) fulls).
+Proof.
+  intros HR HFu HM HG HSh HDt. destruct (c_mk_used _ _ _ HM) as [psA [EP ->]].
+  pose proof (parts_fulls raws psA fulls HR EP HFu) as HPF.
+  set (fd := combine fulls (map r_dt raws)) in *.
+  set (nzp := fun p : cpart => negb (part_len p =? 0)) in *.
+  set (nzq := fun q : nd * Z => negb (hd 0 (nd_shape (fst q)) =? 0)).
+  assert (Hfst : map fst fd = fulls).
+  { unfold fd. apply combine_map_fst. rewrite map_length. exact (mapM_ok_length _ _ _ HFu). }
+  assert (HU : Forall2 PF (used_of nzp psA) (used_of nzq fd)).
+  { apply used_Forall2. eapply Forall2_impl'; [|exact HPF]. intros p q H. split; [exact H|].
+    destruct H as [_ [_ [H _]]]. unfold nzp, nzq. now rewrite H. }
+  assert (HW : zsum (map part_len (used_of nzp psA)) = zsum (map (fun a => hd 0 (nd_shape a)) fulls)).
+  { rewrite <- Hfst, map_map. rewrite <- (used_sum (fun q : nd * Z => hd 0 (nd_shape (fst q))) nzq fd).
+    - clear -HU. induction HU as [|p f l l' H _ IH]; [reflexivity|]. cbn [map zsum fold_right].
+      fold (zsum (map part_len l)). fold (zsum (map (fun q : nd * Z => hd 0 (nd_shape (fst q))) l')). rewrite IH.
+      destruct H as [_ [_ [H _]]]. now rewrite H.
+    - intros a _ Ha. unfold nzq in Ha. lia. }
+  assert (HNN : forall q, In q (used_of nzq fd) -> Forall (fun x => 0 <= x) (nd_shape (fst q))).
+  { intros q Hq. apply used_of_incl in Hq. assert (Hf : In (fst q) fulls) by (rewrite <- Hfst; now apply in_map).
+    clear -HFu Hf. apply mapM_ok_Forall2 in HFu. induction HFu as [|r f rs fs Hr _ IH]; [contradiction|].
+    destruct Hf as [<-|Hf]; [eapply oindex_keep_shape_nonneg; exact Hr|now apply IH]. }
+  remember (used_of nzp psA) as used eqn:EU. remember (used_of nzq fd) as fused eqn:EFu.
+  assert (HG' := HG). unfold c_getitem in HG'. cbn [c_parts c_ts] in HG'.
+  destruct (c_initial_shape used) as [init|] eqn:EI; [|discriminate]. cbn [bind] in HG'.
+  destruct (c_initial_dtype used) as [d0|] eqn:ED; [|discriminate]. clear HG'.
+  destruct HU as [|p0 q0 ur qr HP0 HUr]; [discriminate|].
+  set (T := part_tail p0).
+  unfold c_initial_shape in EI. destruct (forallb _ ur) eqn:EB in EI; [|discriminate]. clear EI init.
+  unfold c_initial_dtype in ED. destruct (common_dtype_spec _ _ ED) as [HLe HPr].
+  assert (HPO : Forall2 (part_ok T d0) (p0 :: ur) (map fst (q0 :: qr))).
+  { apply Forall2_map_r. cbn [map] in HLe. pose proof (Forall_inv HLe) as HLe0. pose proof (Forall_inv_tail HLe) as HLer. constructor.
+    - destruct HP0 as [PO _]. assert (E : tl (nd_shape (fst q0)) = T) by (destruct PO as [_ [E _]]; now rewrite <- E).
+      rewrite E in PO. now apply part_ok_upgrade.
+    - rewrite forallb_forall in EB. clear -HUr EB HLer. revert HLer. induction HUr as [|q f ur' fr' H _ IH]; intro HLer; [constructor|].
+      cbn [map] in HLer. pose proof (Forall_inv HLer) as HLq. pose proof (Forall_inv_tail HLer) as HLr.
+      constructor; [|apply IH; [intros x Hx; apply EB; now right|exact HLr]].
+      destruct H as [PO _]. specialize (EB q ltac:(now left)). apply list_eqb_eq in EB.
+      assert (E : tl (nd_shape (fst f)) = part_tail p0) by (destruct PO as [_ [E _]]; now rewrite <- E, <- EB).
+      rewrite E in PO. now apply part_ok_upgrade. }
+  assert (HL : Forall (fun p => 0 <= part_len p) (p0 :: ur)).
+  { constructor; [destruct HP0 as [_ [H _]]; exact H|]. clear -HUr.
+    induction HUr as [|q f ? ? H _ IH]; constructor; auto. destruct H as [_ [H _]]. exact H. }
+  assert (HTn : Forall (fun x => 0 <= x) T).
+  { assert (ET : tl (nd_shape (fst q0)) = T) by (destruct HP0 as [[_ [E _]] _]; now rewrite <- E).
+    rewrite <- ET. specialize (HNN q0 (or_introl eq_refl)). destruct (nd_shape (fst q0)); [constructor|]. now inversion HNN. }
+  destruct (concat_core_shape (p0 :: ur) (map fst (q0 :: qr)) T d0 HPO ltac:(discriminate) HL ts out s d HTn ED HG HSh HDt)
+    as [C1 [C2 C3]].
+  split; [exact C1|]. split; [exact C2|]. now rewrite C3, HW.
+Qed.
+
+(* non-vacuity of concat_shape_dtype: parts (3 rows), (0 rows), (2 rows) with a dtype-changing chain and an added axis *)
+Lemma concat_shape_dtype_example :
+  let raws := [mk_craw [3; 2] [] (arange [3; 2] 0) 0; mk_craw [0; 2] [] (arange [0; 2] 1) 0; mk_craw [4; 2] [ASlice None None (Some 2)] (arange [4; 2] 1) 0] in
+  let ts := [TMap 2 1 (Some 1); TAdd; TMap 1 0 (Some 4)] in
+  exists c out, c_mk raws ts = Ok c /\ c_getitem c [] = Ok out /\ c_shape c = Ok [5; 2; 1] /\ c_dtype c = Ok 4
+    /\ nd_shape (a_nd out) = [5; 2; 1] /\ a_dtype out = 4.
+Proof. cbv zeta. eexists. eexists. split; [vm_compute; reflexivity|]. split; [vm_compute; reflexivity|]. repeat split. Qed.
